@@ -51,6 +51,7 @@ class FnSpec:
         self.afters = []
         self.replaces = []  # (regex, k, new)
         self.external_body = False
+        self.source = None
 
 
 class Unit:
@@ -78,6 +79,7 @@ def parse_spec(path):
     u = Unit()
     u.path = path
     cur_fn = None
+    cur_src = [None]
     sink = None  # (kind, ref...)
     buf = []
 
@@ -114,11 +116,13 @@ def parse_spec(path):
             rest = d[1] if len(d) > 1 else ""
             if kw == "@spec":
                 flush(); sink = ("spec",)
+            elif kw == "@source":
+                flush(); cur_src[0] = rest.strip()
             elif kw == "@item":
                 flush(); kind, name = rest.split()
-                u.items.append((kind, name))
+                u.items.append((kind, name, cur_src[0]))
             elif kw == "@fn":
-                flush(); cur_fn = FnSpec(rest.strip()); u.fns.append(cur_fn)
+                flush(); cur_fn = FnSpec(rest.strip()); cur_fn.source = cur_src[0]; u.fns.append(cur_fn)
             elif kw == "@lemma":
                 flush(); u.lemmas.append([rest.strip(), None]); cur_fn = None
             elif kw == "@obligation":
@@ -277,10 +281,35 @@ def rw_for_ref_pattern(text):
     return text, cnt
 
 
+def rw_drop_if_debug(text):
+    """After the env_cache rewrite, debug switches are the literal `false` (or a local bound to it).
+    `if <switch> [&& ...] { ... }` without an else branch is dead code: drop the whole statement."""
+    cnt = 0
+    dbg = set(re.findall(r"let\s+(\w+)\s*=\s*false\s*;", text))
+    names = "|".join(["false"] + sorted(dbg))
+    while True:
+        msk = L.mask(text)
+        m = re.search(r"(?m)^([ \t]*)if\s+(?:%s)\b[^{;]*\{" % names, msk)
+        if not m:
+            break
+        o = m.end() - 1
+        c = L.match_brace(msk, o)
+        rest = msk[c + 1:].lstrip()
+        if rest.startswith("else"):
+            raise AnchorLost("debug `if` with an else branch is outside the stated extraction rules")
+        e = c + 1
+        if e < len(text) and text[e] == "\n":
+            e += 1
+        text = text[:m.start()] + text[e:]
+        cnt += 1
+    return text, cnt
+
+
 GENERIC = [
     ("drop #[cfg(feature=..)]-guarded debug statements", rw_drop_cfg_verbose),
     ("drop eprintln!/println! statements", rw_drop_prints),
     ("crate::env_cache::*() debug switches -> false", rw_env_cache),
+    ("drop dead `if <debug switch> { .. }` blocks", rw_drop_if_debug),
     ("for &x in slice / for (i,&x) in slice.iter().enumerate() -> indexed loop", rw_for_ref_pattern),
 ]
 
@@ -302,6 +331,9 @@ def extract_fn(src, msk, fs, log):
     except KeyError as e:
         raise AnchorLost(str(e))
     text = src[start:bc + 1]
+    if fs.external_body:
+        # contract-only external: the body is dropped (it is verified elsewhere or trusted; listed in evidence)
+        text = src[start:bo] + "{ unimplemented!() }"
     # strip doc comments / attributes lines at the top (verus ignores most, but #[inline] etc. are fine)
     text = re.sub(r"(?m)^\s*///.*\n", "", text)
     text = re.sub(r"(?m)^\s*#\[(inline|allow|must_use)[^\]]*\]\s*\n", "", text)
@@ -351,7 +383,7 @@ def extract_fn(src, msk, fs, log):
     for rgx, k, t in fs.afters:
         m = _nth(rgx, text, msk2, k, "@after in " + fs.name)
         # end of the statement: next ';' at depth 0 relative to the match start, or end of line
-        j = m.end()
+        j = m.start()
         depth = 0
         while j < len(msk2):
             ch = msk2[j]
@@ -361,7 +393,7 @@ def extract_fn(src, msk, fs, log):
                 if depth == 0:
                     break
                 depth -= 1
-            elif ch == ";" and depth == 0:
+            elif ch == ";" and depth == 0 and j >= m.end() - 1:
                 j += 1
                 break
             j += 1
@@ -377,11 +409,18 @@ def extract_fn(src, msk, fs, log):
 
 def build_unit(u, repo_root):
     """Assemble the Verus file text for unit u from repo_root. Returns (text, rewrite_log, fn_line_map)."""
-    srcp = os.path.join(repo_root, u.head["source"])
-    if not os.path.exists(srcp):
-        raise AnchorLost("source %s missing" % u.head["source"])
-    src = open(srcp).read()
-    msk = L.mask(src)
+    srcs = {}
+
+    def get_src(rel):
+        rel = rel or u.head["source"]
+        if rel not in srcs:
+            pth = os.path.join(repo_root, rel)
+            if not os.path.exists(pth):
+                raise AnchorLost("source %s missing" % rel)
+            t = open(pth).read()
+            srcs[rel] = (t, L.mask(t))
+        return srcs[rel]
+    get_src(None)
     parts = ["// GENERATED on every run by /verif/lib/ragcverif/verus_extract.py from %s — do not edit.\n" % u.head["source"],
              "#![allow(unused_imports, unused_variables, unused_mut, unused_assignments, dead_code, unused_parens, non_snake_case)]\n",
              "use vstd::prelude::*;\n", "verus! {\n"]
@@ -392,7 +431,8 @@ def build_unit(u, repo_root):
     parts.append(u.spec_text)
     parts.append("// ---- extracted from %s ----\n" % u.head["source"])
     rlog = []
-    for kind, name in u.items:
+    for kind, name, isrc in u.items:
+        src, msk = get_src(isrc)
         try:
             s, e = L.find_item(src, msk, kind, name)
         except KeyError as ex:
@@ -403,6 +443,7 @@ def build_unit(u, repo_root):
     impls = {}
     order = []
     for fs in u.fns:
+        src, msk = get_src(fs.source)
         (within, text), rl = extract_fn(src, msk, fs, None)
         rlog += rl
         if within:
